@@ -1,6 +1,7 @@
 """Which unit serves which property (DESIGN.md section 5)."""
 VERUS_UNITS = {
     "V-frame": "v_frame",
+    "V-vmproto": "v_vmproto",
 }
 
 PROPERTIES = {
